@@ -8,7 +8,7 @@ def sh(cmd, **kw):
     return subprocess.run(cmd, shell=True, cwd=W, capture_output=True, text=True, **kw)
 MUTS = {
  'endidx-sinc': ('C03', 'src/asynchro_sinc.rs', [("            - (sinc_len as isize + 1)\n", "            - (sinc_len as isize - 1)\n")], 'SincFixedIn end-of-chunk margin two frames too small'),
- 'endidx-fast': ('C03', 'src/asynchro_fast.rs', [("            - (POLYNOMIAL_LEN_I + 1)\n", "            - (POLYNOMIAL_LEN_I - 4)\n")], 'FastFixedIn end-of-chunk margin five frames too small (unchecked read past the buffer)'),
+ 'endidx-fast': ('C03', 'src/asynchro_fast.rs', [("            - (POLYNOMIAL_LEN_I + 1)\n", "            - (POLYNOMIAL_LEN_I - 5)\n")], 'FastFixedIn end-of-chunk margin six frames too small (the margin has five frames of slack; the sixth makes the unchecked septic window read one cell past the buffer)'),
  'margin10': ('C04', 'src/asynchro_sinc.rs', [("(self.chunk_size as f64 * (0.5 * self.resample_ratio + 0.5 * self.target_ratio) + 10.0)\n            as usize", "(self.chunk_size as f64 * (0.5 * self.resample_ratio + 0.5 * self.target_ratio) + 1.0)\n            as usize")], 'SincFixedIn output_frames_next margin +10 -> +1'),
  'floor-lastindex': ('C07', 'src/asynchro_fast.rs', [("        self.last_index = idx - self.chunk_size as f64;\n        self.resample_ratio = self.target_ratio;\n        trace!(\n            \"Resampling channels {:?}, {} frames in, {} frames out\",", "        self.last_index = idx.floor() - self.chunk_size as f64;\n        self.resample_ratio = self.target_ratio;\n        trace!(\n            \"Resampling channels {:?}, {} frames in, {} frames out\",")], 'FastFixedIn drops the fractional position at every chunk boundary'),
  'fo-copywithin': ('C05', 'src/asynchro_sinc.rs', [("            buf.copy_within(\n                self.current_buffer_fill..self.current_buffer_fill + 2 * sinc_len,\n                0,\n            );\n        }\n        self.current_buffer_fill = self.needed_input_size;", "            buf.copy_within(\n                self.needed_input_size..self.needed_input_size + 2 * sinc_len,\n                0,\n            );\n        }\n        self.current_buffer_fill = self.needed_input_size;")], 'SincFixedOut keeps history from needed_input_size instead of current_buffer_fill'),
